@@ -75,6 +75,7 @@ def check_C06(ctx):
     def wiring():
         im = pdb.trait_impl("core::convert::From", HRANK, ["u16"])
         kf = im["items"]["from"]
+        ctx.check_shadow(HRANK, "from", "core::convert::From", kf, None)
         smf = ctx.summ(kf, [("v", v)])
         r = smf.ret
         # the conversion (with determine_name / determine_class inside it) is total over all 65536 values
@@ -88,6 +89,7 @@ def check_C06(ctx):
         rep.ob("C06.from-wiring", "fields", set(fields) == {"value", "name", "class"}, "HandRank has fields %s" % fields, nontrivial=False)
         # default = from(0)
         kd = pdb.trait_impl("core::default::Default", HRANK)["items"]["default"]
+        ctx.check_shadow(HRANK, "default", "core::default::Default", kd, None)
         d = ctx.summ(kd, []).ret
         z = ctx.fold(r, {"v": 0})
         rep.ob("C06.default", "default()", d == z or d is z, "HandRank::default() is not the conversion of 0", pdb.where(kd))
@@ -180,6 +182,7 @@ def check_C07(ctx):
         ord_im = pdb.trait_impl("core::cmp::Ord", HRANK)
         extra_ord = sorted(set(ord_im["items"]) - {"cmp"})
         kcmp = ord_im["items"]["cmp"]
+        ctx.check_shadow(HRANK, "cmp", "core::cmp::Ord", kcmp, None)
         smc = ctx.summ(kcmp, [("r", ra), ("r", rb)])
         dag = smc.ret
         # the comparison may depend on (a, b) only through comparisons with constants and with each other
@@ -1022,6 +1025,7 @@ def check_C16(ctx):
     def conv():
         im = pdb.trait_impl("core::convert::TryFrom", TWO, ["u64"])
         key = im["items"]["try_from"]
+        ctx.check_shadow(TWO, "try_from", "core::convert::TryFrom", key, None)
         s = atom("s", "u64")
         sm = ctx.summ(key, [("v", s)])
         dag = sm.ret
